@@ -3,10 +3,9 @@
 // Contracts for the verification machinery in /verif (comment-only; excluded from normal builds).
 // Property C29. Mode bv.
 //
-// Ghost input `outcome` says how the program given to `wa run` ends (chosen by the environment):
-//   0 = it does not compile / cannot be instantiated, 1 = it returns normally,
-//   2 = it calls exit(outcome_code), 3 = it traps or panics.
-// The ASSUMED contracts of the build and execution engine below tie their results to `outcome`.
+// outcome() (defined in internal/wazero's contract file from ghost inputs chosen by the environment) says how
+// the program given to `wa run` ends: 0 = it does not compile / cannot be instantiated, 1 = it returns
+// normally, 2 = it calls exit(outcome_code()), 3 = it traps or panics.
 // The property is then a requirement on every way CmdRunAction/runWasm can end:
 //   - at every os.Exit(code): code must be the status the property demands for `outcome`
 //     (this is os.Exit's `requires`, so each call site is an obligation);
@@ -18,36 +17,19 @@
 
 package apprun
 
-//@ ghost outcome int
-//@ ghost outcome_code uint32
-//@ spec (declare-fun exitcode_of (Int) (_ BitVec 32))
 //@ spec status_ok(code int) bool :=
-//@      (outcome == 1 ==> code == 0) && (outcome == 2 ==> code == int(outcome_code)) && (outcome == 0 || outcome == 3 ==> code != 0)
-//@ spec run_contract(err error) bool :=
-//@      ((err == nil) == (outcome == 1)) && outcome != 0 &&
-//@      (outcome == 2 ==> typeis(err, *sys.ExitError) && exitcode_of(payload(err)) == outcome_code) &&
-//@      (outcome == 3 ==> err != nil && !typeis(err, *sys.ExitError))
+//@      (outcome() == 1 ==> code == 0) && (outcome() == 2 ==> code == int(outcome_code())) && (outcome() == 0 || outcome() == 3 ==> code != 0)
 
 //@ extern os.Exit
 //@   requires status_ok(code)
 //@   noreturn
 
-// ---- assumed: the engine
+// ---- assumed: the build (RunMain, RunWasm, AsExitError and BuildModule carry contracts in internal/wazero)
 //@ extern appbuild.BuildApp
-//@   ensures (err != nil) == (outcome == 0)
+//@   ensures (err != nil) == !compiles
+//@   ensures err == nil ==> mainFunc != ""
 //@ extern watutil.Wat2Wasm
-//@   ensures (err != nil) == (outcome == 0)
-//@ extern wazero.BuildModule
-//@   ensures result1 != nil ==> outcome == 0
-//@   ensures result1 == nil ==> result0 != nil
-//@ extern (*wazero.Module).RunMain
-//@   ensures run_contract(err)
-//@ extern wazero.RunWasm
-//@   ensures run_contract(err)
-//@ extern (*wazero.Module).Close
-//@ extern wazero.AsExitError
-//@   ensures ok == typeis(err, *sys.ExitError)
-//@   ensures ok ==> exitCode == int(exitcode_of(payload(err)))
+//@   ensures (err != nil) == !compiles
 //@ extern wazero.HasUnknownConsoleImportFunc
 //@   ensures result == false
 
